@@ -299,6 +299,20 @@ theorem ordAge_bound_exact [Fintype ι] [DecidableEq ι] (α : ι → Fin N → 
     simp only [if_true, mul_one]
     linarith
 
+/-- THE LEVEL-0 BOUND OF A POSYNOMIAL PLUS A CONSTANT IS ITS INFIMUM: the set of certified `γ` is exactly `(-∞, inf f]` -/
+theorem ordAge_bound_eq_inf [Fintype ι] [DecidableEq ι] (α : ι → Fin N → ℝ) (i : ι) (S : Finset ι) (hiS : i ∉ S)
+    (hi0 : ∀ l, α i l = 0) (c : ι → ℝ) (hc : ∀ j ∈ S, 0 ≤ c j) (γ : ℝ) :
+    OrdAgeCert α i S (fun j => if j = i then c i - γ else c j) ↔
+      γ ≤ ⨅ x : Fin N → ℝ, (c i + ∑ j ∈ S, c j * Real.exp (dotp (α j) x)) := by
+  rw [ordAge_bound_exact α i S hiS hi0 c hc γ]
+  have hbdd : BddBelow (Set.range fun x : Fin N → ℝ => c i + ∑ j ∈ S, c j * Real.exp (dotp (α j) x)) := by
+    refine ⟨c i, ?_⟩
+    rintro _ ⟨x, rfl⟩
+    have : 0 ≤ ∑ j ∈ S, c j * Real.exp (dotp (α j) x) :=
+      Finset.sum_nonneg (fun j hj => mul_nonneg (hc j hj) (Real.exp_pos _).le)
+    simp only; linarith
+  exact (le_ciInf_iff hbdd).symm
+
 /-! ### non-vacuity: `eˣ` (infimum 0, NOT attained) plus a constant — the case the attainment hypothesis of part C excludes -/
 
 example : OrdAgeCert (fun (j : Fin 2) (_ : Fin 1) => (j : ℝ)) 0 {1} (fun j => if j = 0 then 0 else 1) := by
